@@ -662,11 +662,39 @@ theorem core_disciplined (a b : Nat) (s : PState) (managed m : Payload)
 
 /-! ## the writer as a sequence of events -/
 
+/-- operations of the file phase: what indexing workers, merge threads and the doc-store
+compressor issue while they write segment files (any number of threads, any interleaving) -/
+def isFileOp : Op → Bool
+  | .create _ | .write _ _ | .flush _ | .terminate _ => true
+  | .atomicWrite p _ => p != META
+  | _ => false
+
+/-- a sequence of file-phase operations each of which breaks no rule in the state it meets -/
+def fileOpsOk : PState → List Op → Bool
+  | _, [] => true
+  | s, op :: t => isFileOp op && (violations s op).isEmpty && fileOpsOk (s.step op) t
+
+theorem fileOps_effect (s : PState) (ops : List Op) (h : fileOpsOk s ops = true) :
+    Disciplined s ops = true ∧ metaCands (s.run ops) = metaCands s := by
+  induction ops generalizing s with
+  | nil => exact ⟨rfl, rfl⟩
+  | cons op t ih =>
+    simp only [fileOpsOk, Bool.and_eq_true, List.isEmpty_iff] at h
+    obtain ⟨⟨hf, hv⟩, ht⟩ := h
+    obtain ⟨i1, i2⟩ := ih (s.step op) ht
+    have hc : metaCands (s.step op) = metaCands s := by
+      apply metaCands_step_other
+      · intro e; subst e; simp [isFileOp] at hf
+      · intro b e; subst e; simp [isFileOp] at hf
+    refine ⟨(disciplined_cons s op t).mpr ⟨hv, i1⟩, ?_⟩
+    rw [run_cons, i2, hc]
+
 /-- what the segment updater and its workers do to storage, one event per task:
 a worker or merge thread writes the files of a segment; `schedule_commit`; `end_merge` of
 committed segments (same opstamp, new `meta.json`); an explicit or policy-independent collection.
 A policy switch (`set_merge_policy`) only changes WHICH of these events occur. -/
 inductive WEv
+  | files (ops : List Op)
   | flush (managed : Payload) (files : List (Path × Nat))
   | commit (managed : Payload) (files : List (Path × Nat)) (m : Payload) (dels : List Path)
   | endMerge (managed : Payload) (files : List (Path × Nat)) (m : Payload) (dels : List Path)
@@ -675,6 +703,7 @@ inductive WEv
 /-- storage operations of one event, `save_metas` in the shape `sync^(a+1); write; sync^(b+1)`
 -- mirrors: segment_updater.rs::schedule_commit, end_merge, garbage_collect_files; index_writer.rs::index_documents -/
 def WEv.ops (a b : Nat) : WEv → List Op
+  | .files ops => ops
   | .flush mg fs => writeAll mg fs
   | .commit mg fs m dels => coreOps a b mg m fs dels ++ [.ack m.commit]
   | .endMerge mg fs m dels => coreOps a b mg m fs dels
@@ -689,6 +718,7 @@ def freshFiles (s : PState) (fs : List (Path × Nat)) : Prop :=
 in opstamps; a collection spares `meta.json` and what the newest `meta.json` references (that is
 `list_files` ⊇ committed metas ∪ {meta.json}) -/
 def WOk (s : PState) : WEv → Prop
+  | .files ops => fileOpsOk s ops = true
   | .flush _ fs => freshFiles s fs
   | .commit _ fs m dels | .endMerge _ fs m dels =>
     freshFiles s fs ∧ (∀ p ∈ m.refs, p ∈ fs.map Prod.fst ∨ (s.dir.file p).ready = true) ∧
@@ -706,6 +736,9 @@ theorem wev_step (a b : Nat) (s : PState) (hs : Synced s) (e : WEv) (hok : WOk s
     Disciplined s (e.ops a b) = true ∧ Synced (s.run (e.ops a b)) := by
   obtain ⟨m0, hm0⟩ := hs
   cases e with
+  | files ops =>
+    obtain ⟨f1, f2⟩ := fileOps_effect s ops hok
+    exact ⟨f1, m0, by rw [WEv.ops, f2]; exact hm0⟩
   | flush mg fs =>
     obtain ⟨w1, _, _, _, w5⟩ := writeAll_effect (fun _ => true) mg fs s hok.1 hok.2
     exact ⟨w1, m0, by rw [WEv.ops, w5]; exact hm0⟩
@@ -776,5 +809,47 @@ theorem cands_written (s : PState) (t : List Op) :
         · rw [metaCands_step_other s op hsync (fun b e => hw ⟨b, e⟩)] at h
           exact Or.inl h
     · exact Or.inr (List.mem_cons_of_mem _ h)
+
+/-- the protocol invariant as a decidable check (what the driver evaluates on the state a real
+log has reached when `Index::create` returned) -/
+def invB (s : PState) : Bool :=
+  (s.dir.atom META).dur.isSome &&
+  (metaCands s).all (fun m => m.refs.all (fun p => (s.dir.file p).firm) &&
+    decide (s.acked ≤ m.commit) && decide (m.commit ≤ s.started))
+
+theorem invB_iff (s : PState) : invB s = true ↔ Inv s := by
+  constructor
+  · intro h
+    simp only [invB, Bool.and_eq_true, List.all_eq_true, decide_eq_true_eq] at h
+    obtain ⟨hd, hall⟩ := h
+    refine ⟨Option.isSome_iff_exists.mp hd, ?_, ?_⟩
+    · intro m hm p hp; exact (hall m hm).1.1 p hp
+    · intro m hm; exact ⟨(hall m hm).1.2, (hall m hm).2⟩
+  · intro h
+    simp only [invB, Bool.and_eq_true, List.all_eq_true, decide_eq_true_eq]
+    refine ⟨Option.isSome_iff_exists.mpr h.durable, ?_⟩
+    intro m hm
+    exact ⟨⟨fun p hp => h.refs m hm p hp, (h.bounds m hm).1⟩, (h.bounds m hm).2⟩
+
+theorem lastAcked_mono (a : Nat) (t : List Op) : a ≤ lastAcked a t := by
+  induction t generalizing a with
+  | nil => exact Nat.le_refl _
+  | cons op t ih =>
+    simp only [lastAcked, List.foldl_cons]
+    cases op with
+    | ack c => exact Nat.le_trans (Nat.le_max_left a c) (ih _)
+    | _ => exact ih _
+
+theorem le_lastAcked_of_mem (a : Nat) (t : List Op) (c : Nat) (h : Op.ack c ∈ t) : c ≤ lastAcked a t := by
+  induction t generalizing a with
+  | nil => cases h
+  | cons op t ih =>
+    simp only [lastAcked, List.foldl_cons]
+    rcases List.mem_cons.mp h with e | h'
+    · subst e
+      exact Nat.le_trans (Nat.le_max_right a c) (lastAcked_mono _ t)
+    · cases op with
+      | ack c' => exact ih _ h'
+      | _ => exact ih _ h'
 
 end TantivyModel.CommitProtocol
